@@ -232,9 +232,19 @@ def render_arg(ex, arg, flags=0, width=None):
     v, ty = arg.v; v = ex.deref(v); kind = arg.kind
     if kind in ('display', 'debug') and isinstance(v, Str):
         if kind == 'debug':
-            try: return [ord(c) for c in repr(pystr(v)).replace("'", '"')] if False else [34] + v.chars + [34]
-            except Unsupported: return [34] + v.chars + [34]
-        out = list(v.chars)
+            # <str as Debug>: quotes, and char::escape_debug for `"` `\` \n \r \t \0, other control characters as \u{..}; a symbolic character must not need an escape
+            out = [34]
+            for c in v.chars:
+                if is_sym(c):
+                    if ex.branch_bool(z3.Or(c == 34, c == 92, c < 32, z3.And(c >= 127, c < 160))): raise Unsupported('Debug formatting of a symbolic character that needs an escape')
+                    out.append(c); continue
+                if c in (34, 92): out += [92, c]
+                elif c in (10, 13, 9, 0): out += [92, {10: 110, 13: 114, 9: 116, 0: 48}[c]]
+                elif c < 32 or 127 <= c < 160: out += [ord(x) for x in '\\u{%x}' % c]
+                elif c >= 160 and not chr(c).isprintable(): raise Unsupported('Debug formatting of the non-printable character U+%04X' % c)
+                else: out.append(c)
+            out.append(34)
+        else: out = list(v.chars)
     elif kind in ('display', 'debug') and isinstance(v, bool): out = [ord(c) for c in ('true' if v else 'false')]
     elif kind in ('display', 'debug') and isinstance(v, int):
         t = ty.lstrip('&').strip()
@@ -267,8 +277,12 @@ def render_arg(ex, arg, flags=0, width=None):
             return [0xFFFD]        # opaque rendering (Debug of a structure etc.): one replacement char, never compared
     else: raise Unsupported('fmt arg kind %s of %r' % (kind, v))
     if width is not None and len(out) < width:
-        pad = [48 if flags & (1 << 24) else (flags & 0x1FFFFF or 32)] * (width - len(out))
-        out = pad + out if (flags & (1 << 24)) or isinstance(v, int) else out + pad
+        pad = [48 if flags & (1 << 24) else (flags & 0x1FFFFF or 32)] * (width - len(out)); align = (flags >> 29) & 3 if flags else 3
+        if flags & (1 << 24): out = (out[:1] + pad + out[1:]) if out[:1] == [45] else pad + out                   # sign-aware zero padding
+        elif align == 0: out = out + pad
+        elif align == 1: out = pad + out
+        elif align == 2: out = pad[:len(pad) // 2] + out + pad[len(pad) // 2:]
+        else: out = pad + out if isinstance(v, int) and not isinstance(v, bool) else out + pad         # no alignment given: numbers to the right, everything else to the left
     return out
 @pattern(r'^(core::fmt::|std::fmt::)?Arguments::new(_const|_v1)?')
 def m_fmt_arguments(ex, f, a):
